@@ -477,4 +477,111 @@ theorem C08_count_restored {c : State} (h : Inv c) (sv : Nat) (es : List TEv)
     · exact hothers x hx
   exact hperm.length_eq
 
+
+/-- **C08 (the ghost versions are real).** `sentVer`, used in `C08_latest_state_sent`, is not
+free-floating: whenever a step changes it, that step put a non-final notification with an Observe
+number and exactly that content version on the pipe; and every render started in a step samples
+the resource's state as it is at that step (so a render started after a change sees it). -/
+theorem C08_sent_version_was_notified {c : State} (h : Inv c) {t : Task} (ht : t ∈ c.tasks)
+    (plan : Plan) (acc : Bool) :
+    ∃ t', findTask (handle c (.step t.srv plan acc)).1 t.srv = some t' ∧
+      (t'.sentVer = t.sentVer ∨
+        ∃ code n, Out.notify t.srv code (some n) t'.sentVer false ∈ (handle c (.step t.srv plan acc)).2) ∧
+      ∀ ver, Out.render t.srv ver ∈ (handle c (.step t.srv plan acc)).2 → ver = c.value := by
+  have hf := findTask_of_mem h.wf ht
+  have hself := handle_self_step hf plan acc
+  refine ⟨_, hself.2, ?_, ?_⟩
+  · rcases stepTask_sent c.value t plan acc with hs | ⟨code, n, hs⟩
+    · exact Or.inl hs
+    · exact Or.inr ⟨code, n, by rw [hself.1]; exact exec_notify_mem _ _ _ _ _ _ _ hs⟩
+  · intro ver hv
+    rw [hself.1] at hv
+    have := exec_render_inv _ _ _ _ _ hv
+    exact stepTask_render c.value t plan acc ver this
+
+/-
+Full statement of "no further notification is ever sent": once a registration has ended, no
+datagram carrying a notification of it is transmitted any more.  This is FALSE of the code (and of
+the model, which follows the code) in one situation, recorded as a known finding: a CON
+notification that was already handed to the message layer and is waiting in the backlog behind an
+unacknowledged CON to the same endpoint is still transmitted — and retransmitted — when that
+exchange finishes, even if the registration has been ended in between by a Reset or by a new
+request on the token (see the `decide` example below: message ID 501).  What holds, and is proved,
+is the statement at the boundary between the render task and the message layer:
+-/
+/-- **C08 (nothing after the end — partial).** Once the task of a registration has ended, a step of
+it produces no output at all — no datagram, no render, no notification, no callback — and changes
+nothing; so whatever is transmitted with the registration's token after the end was handed to the
+message layer before the end (a retransmission, or a queued notification). -/
+theorem C08_wire_silent_after_end_partial {c : State} (h : Inv c) {sv : Nat} (hd : doneAt c sv)
+    (plan : Plan) (acc : Bool) :
+    (handle c (.step sv plan acc)).2 = [] ∧
+    (handle c (.step sv plan acc)).1.ml = c.ml ∧
+    (handle c (.step sv plan acc)).1.observations = c.observations := by
+  obtain ⟨t, hf, hdone⟩ := hd
+  have hrun : t.runnable = false := (h.ok t (findTask_some hf).1).wDone hdone
+  have hst : stepTask c.value t plan acc = (t, []) := by simp [stepTask, hrun]
+  simp only [handle, hf, hst, exec, putTask, and_self]
+
+-- non-vacuity ---------------------------------------------------------------------------------------------
+
+def c08Cfg : Cfg := { exchangeLifetime := 1000, emptyAckDelay := 10 }
+def c08Init : State := init (MsgLayer.init c08Cfg 500 0 (fun _ => 20)) 4
+def c08Get (mid : Nat) : Wire :=
+  { mtype := .con, code := 1, mid, token := [170], obs := some 0, body := 0 }
+
+/-- a CON registration; a first change (the render suspends); two more changes while that render
+is running (coalesced into one pending trigger); the render returns; the observer resets the
+first notification while the second one is queued behind it; one more change afterwards -/
+def c08Run : List TEv :=
+  [⟨5, .recv 1 false (c08Get 70)⟩, ⟨5, .step 0 (.imm 69 false) true⟩,
+   ⟨100, .update none⟩, ⟨100, .step 0 .susp true⟩,
+   ⟨110, .update none⟩, ⟨111, .update none⟩,
+   ⟨120, .release 0 69 false⟩, ⟨120, .step 0 (.imm 69 false) true⟩,
+   ⟨130, .recv 1 false { mtype := .rst, code := 0, mid := 500, token := [], obs := none, body := 0 }⟩,
+   ⟨130, .step 0 .susp true⟩, ⟨140, .update none⟩, ⟨140, .step 0 .susp true⟩]
+
+/-- what is observable of that run: the count goes 1 … 0; renders sample versions 0, 1 and 3
+(version 2 is coalesced away); notifications carry Observe 0, 1, 2 and versions 0, 1, 3; the
+Reset stops the pipe, the callback runs once; nothing is rendered or notified for the last
+change.  (The datagram with message ID 501 sent *after* the Reset is the notification that was
+already queued in the message layer behind the unacknowledged one — see the known finding.) -/
+example : (run c08Init c08Run).2.map (fun o => match o with
+    | .net (.send t _ w) => ("send", t, w.mid, w.obs.getD 99, w.body)
+    | .net (.deliver sv _ _) => ("deliver", sv, 0, 0, 0)
+    | .net (.stop sv) => ("stop", sv, 0, 0, 0)
+    | .net _ => ("other", 0, 0, 0, 0)
+    | .count n => ("count", n, 0, 0, 0)
+    | .cancelled sv => ("cancelled", sv, 0, 0, 0)
+    | .render sv v => ("render", sv, v, 0, 0)
+    | .notify sv _ obs body il => ("notify", sv, obs.getD 99, body, if il then 1 else 0)) =
+  [("deliver", 0, 0, 0, 0), ("count", 1, 0, 0, 0), ("render", 0, 0, 0, 0), ("send", 5, 70, 0, 0),
+   ("notify", 0, 0, 0, 0), ("render", 0, 1, 0, 0), ("send", 120, 500, 1, 1), ("notify", 0, 1, 1, 0),
+   ("render", 0, 3, 0, 0), ("notify", 0, 2, 3, 0), ("stop", 0, 0, 0, 0), ("send", 130, 501, 2, 3),
+   ("cancelled", 0, 0, 0, 0), ("count", 0, 0, 0, 0)] := by decide
+
+/-- the hypotheses of the latest-state theorem are met in the middle of that run: registered, at
+rest, idle — and indeed up to date (last change was version 3, last notification is version 3) -/
+example : ∃ t ∈ (run c08Init (c08Run.take 8)).1.tasks,
+    inSet t = true ∧ t.runnable = false ∧ t.phase = .waitTrig ∧ t.trig = none ∧
+    t.seen = 3 ∧ t.sentVer = 3 := by decide
+
+/-- … and while the render was running with two changes coalesced behind it: trigger pending -/
+example : ∃ t ∈ (run c08Init (c08Run.take 6)).1.tasks,
+    inSet t = true ∧ t.runnable = false ∧ t.phase = .loopRender ∧ t.trig = some none ∧
+    t.seen = 3 ∧ t.renderVer = 1 := by decide
+
+/-- the hypotheses of the Reset theorem are met: an exchange whose monitor is the pipe's stopper -/
+example : ∃ e ∈ (run c08Init (c08Run.take 8)).1.ml.exchanges,
+    e.monitor = .srv 0 ∧ e.msg.mid = 500 ∧ e.remote = 1 ∧
+    (run c08Init (c08Run.take 8)).1.ml.incoming.any (fun i => i.srv == 0) = true := by decide
+
+/-- after the Reset the task is `Stopped` but has not ended (hypotheses of `C08_cancelled_task_ends`),
+and at the end of the run it has ended, with the callback counter at 1 and the set empty -/
+example : (run c08Init (c08Run.take 9)).1.tasks.map (fun t => (t.cancelReq, t.phase, t.runnable, t.cbRuns)) =
+    [(true, .waitTrig, true, 0)] := by decide
+example : ((run c08Init c08Run).1.tasks.map (fun t => (t.phase, t.cbRuns)),
+    (run c08Init c08Run).1.observations, (run c08Init c08Run).1.ml.incoming.length) =
+    ([(.done, 1)], [], 0) := by decide
+
 end Aiocoap.Observe.Server
